@@ -144,6 +144,7 @@ def enumerate_cases(tier):
     for mode in ("driver_kill_before_ninja", "driver_truncate_ninja"):
         faults.append(("glyf_colr_1", "driver:" + mode))
         faults.append(("picosvg", "driver:" + mode))
+    yield from _edit_rows()
     for i, (fmt, fault) in enumerate(faults):
         opt = [{"op": "option", "key": "color_format", "value": fmt}]
         add = [{"op": "add", "cps": [0x1F600], "svg": SVG_A}, {"op": "add", "cps": [0x1F601, 0x200D, 0x1F602], "svg": SVG_B}]
@@ -151,6 +152,40 @@ def enumerate_cases(tier):
         if tier == "thorough" or (i + seed) % 3 == 0:
             edit = [{"op": "modify", "cps": [0x1F600], "svg": SVG_C}, {"op": "modify", "cps": [0x1F601, 0x200D, 0x1F602], "svg": SVG_A}, {"op": "option", "key": "upem", "value": 2048}]
             yield {"steps": opt + add + [{"op": "invoke", "fault": None}] + edit + [{"op": "invoke", "fault": fault}, {"op": "invoke", "fault": None}, {"op": "invoke", "fault": None}], "via_toml": i % 2 == 1}
+
+
+SVG_FLAT = '<svg xmlns="http://www.w3.org/2000/svg" viewBox="0 0 100 100"><rect x="0" y="0" width="100" height="100" fill="#3070b0"/></svg>'
+SVG_RICH = ('<svg xmlns="http://www.w3.org/2000/svg" viewBox="0 0 100 100"><defs><linearGradient id="a" x1="0" y1="0" x2="100" y2="100" gradientUnits="userSpaceOnUse">'
+            '<stop offset="0" stop-color="#ff0000"/><stop offset="0.5" stop-color="#00ff00"/><stop offset="1" stop-color="#0000ff"/></linearGradient>'
+            '<radialGradient id="b" cx="60" cy="40" r="50" gradientUnits="userSpaceOnUse"><stop offset="0" stop-color="#ffff00"/><stop offset="1" stop-color="#800080" stop-opacity="0.4"/></radialGradient></defs>'
+            '<rect x="5" y="5" width="90" height="90" fill="url(#a)"/><circle cx="55" cy="45" r="35" fill="url(#b)"/></svg>')
+
+
+def _mosaic(n=24):
+    cells = []
+    for i in range(n):
+        for j in range(n):
+            k = i * n + j
+            cells.append('<rect x="%g" y="%g" width="%g" height="%g" fill="#%02x%02x%02x"/>' % (j * 100 / n, i * 100 / n, 100 / n, 100 / n, (k * 73) % 256, (k * 151 + 40) % 256, (k * 211 + 90) % 256))
+    return '<svg xmlns="http://www.w3.org/2000/svg" viewBox="0 0 100 100">' + "".join(cells) + "</svg>"
+
+
+SVG_MOSAIC = _mosaic()  # 576 colours at 32 px: pngquant cannot reach quality 85 and declines (exit 99), the wrapper passes the input on
+
+
+def _edit_rows():
+    """No fault at all: build, edit every source in place (and, second row, back again), rebuild - per colour format, bitmap
+    formats with each optimiser on and off. The edited images are chosen so that the PNG optimisers take both of their
+    exits (images that are quantised, a 576-colour mosaic for which pngquant declines)."""
+    a, b = [0x1F600], [0x1F601, 0x200D, 0x1F602]
+    rows = [(f, {}) for f in FORMATS + ["sbix"]] + [("cbdt", {"use_pngquant": False}), ("cbdt", {"use_zopflipng": False}), ("sbix", {"use_pngquant": False, "use_zopflipng": False})]
+    for i, (fmt, extra) in enumerate(rows):
+        opt = [{"op": "option", "key": "color_format", "value": fmt}] + [{"op": "option", "key": k, "value": x} for k, x in extra.items()]
+        first, second = ((SVG_RICH, SVG_A), (SVG_MOSAIC, SVG_RICH)) if i % 2 == 0 else ((SVG_MOSAIC, SVG_B), (SVG_FLAT, SVG_MOSAIC))
+        steps = opt + [{"op": "add", "cps": a, "svg": first[0]}, {"op": "add", "cps": b, "svg": first[1]}, {"op": "invoke", "fault": None},
+                       {"op": "modify", "cps": a, "svg": second[0]}, {"op": "modify", "cps": b, "svg": second[1]}, {"op": "invoke", "fault": None},
+                       {"op": "modify", "cps": a, "svg": first[0]}, {"op": "invoke", "fault": None}]
+        yield {"steps": steps, "via_toml": i % 2 == 1}
 
 
 def fname(cps):
@@ -164,7 +199,7 @@ def flags_for(opts):
             out.append("--%s%s" % ("" if val else "no", k))
         else:
             out += ["--" + k, str(val)]
-    if opts.get("color_format") == "cbdt" and "bitmap_resolution" not in opts:
+    if opts.get("color_format") in ("cbdt", "sbix") and "bitmap_resolution" not in opts:
         out += ["--bitmap_resolution", "32"]
     return out
 
@@ -172,7 +207,7 @@ def flags_for(opts):
 def toml_for(opts):
     lines = []
     o = dict(opts)
-    if o.get("color_format") == "cbdt" and "bitmap_resolution" not in o:
+    if o.get("color_format") in ("cbdt", "sbix") and "bitmap_resolution" not in o:
         o["bitmap_resolution"] = 32
     for k, val in sorted(o.items()):
         if isinstance(val, bool):
